@@ -72,7 +72,7 @@ def run(ctx):
     # R13.4: the -fwide-types build carries object-set identifier cells as INTEGER_t literals, the native build as long
     # constants; the literal must denote the same number (rule R18.2 evaluated for this property)
     from . import c18
-    return [r, r2, r13_3(ctx.prog("S"), tab), c18.r18_2(prog, rid="R13.4"), r13_5(prog, tab, scope), _r13_6(ctx)]
+    return [r, r2, r13_3(ctx.prog("S"), tab), c18.r18_2(prog, rid="R13.4"), r13_5(prog, tab, scope), _r13_6(ctx), r13_7(ctx.prog("S"))]
 
 
 def _r13_6(ctx):
@@ -81,6 +81,34 @@ def _r13_6(ctx):
     for this property)."""
     from . import c16
     return c16.r16_3(ctx.prog("S"), rid="R13.6")
+
+
+def r13_7(prog):
+    """The native INTEGER codec keeps unsigned values in a `long`-sized field and records that in
+    specs->field_unsigned; the wide codec has no such ambiguity.  The two builds agree only if *every* codec entry of
+    asn_OP_NativeInteger consults field_unsigned (directly or in a callee of the Native* files): sibling agreement over
+    the op table (10 of 11 codec slots did on the pinned tree)."""
+    r = Rule("R13.7", "every codec slot of the native INTEGER type consults field_unsigned", floor=8)
+    cg = prog.callgraph()
+    tab_ = prog.op_tables.get("asn_OP_NativeInteger")
+    if not tab_:
+        raise AnalysisBroken("asn_OP_NativeInteger not found")
+
+    def reads(f):
+        return any(n[0] == "member" and n[2] == "field_unsigned" for b, l, t in f.all_trees() for n in walk(t))
+    for slot, v in sorted(tab_.items()):
+        if slot in ("free_struct", "outmost_tag") or not (isinstance(v, str) and v.startswith("fn:")):
+            continue
+        f = prog.func(v[3:])
+        if f is None:
+            continue
+        ok = reads(f) or any(reads(prog.funcs[k]) for k in cg.reachable({f.key}) if "Native" in prog.funcs[k].relfile)
+        if ok:
+            r.ok(f, slot, "consults field_unsigned", f.line)
+        else:
+            r.bad(f, slot, "this codec entry never looks at field_unsigned while its siblings do: an unsigned value with the top bit set is "
+                           "treated as negative here (the -fwide-types build encodes the same value differently)", f.line)
+    return r
 
 
 def r13_5(prog, tab, scope=None):
